@@ -1104,4 +1104,246 @@ theorem closed_rootPath {t : Table} (hw : WF t) (seen : List Int)
       · exact absurd hc hp
       · exact hc (hcl n hn hs hp) x h
 
+/-! ### greedy segments: the invariant of the fold over the leafs -/
+
+/-- State of the greedy fold after the leafs `done`: `acc` are the segments so far, `seen` the visited
+inner nodes. -/
+structure GInv (t : Table) (done : List Int) (acc : List (List Int)) (seen : List Int) : Prop where
+  pp : ∀ s ∈ acc, isParentPath t s = true ∧ s.length > 1
+  nodup : (acc.flatMap fun s => s.dropLast).Nodup
+  mem : ∀ x, x ∈ (acc.flatMap fun s => s.dropLast) ↔
+    x ∈ done ∨ (x ∈ seen ∧ ∃ n, find? t x = some n ∧ ¬ n.parent < 0)
+  closed : ∀ n ∈ t, n.id ∈ seen → ¬ n.parent < 0 → n.parent ∈ seen
+  inner : ∀ x ∈ seen, 0 < childCount t x ∧ x ∈ ids t
+  anc : ∀ l ∈ done, ∀ x ∈ (rootPath t l).tail, x ∈ seen
+  leaf : ∀ l ∈ done, childCount t l = 0
+
+theorem GInv.init (t : Table) : GInv t [] [] [] :=
+  ⟨by simp, by simp, by simp, by simp, by simp, by simp, by simp⟩
+
+theorem GInv.step {t : Table} (hw : WF t) {done : List Int} {acc : List (List Int)} {seen : List Int}
+    (h : GInv t done acc seen) {nl : Node} (hnl : nl ∈ t) (hp : ¬ nl.parent < 0) (hcc : childCount t nl.id = 0)
+    (hnd : nl.id ∉ done) :
+    GInv t (done ++ [nl.id]) (greedyStep t (acc, seen) nl.id).1 (greedyStep t (acc, seen) nl.id).2 := by
+  have hf := find?_of_mem hw.1 hnl
+  have hlen : (rootPath t nl.id).length ≤ t.length + 1 := by
+    have := rootPath_length_le hw nl.id; omega
+  obtain ⟨mid, last, h1, hs⟩ := walkSeen_spec hw (t.length + 1) nl.id nl seen hf hp hlen
+  unfold greedyStep
+  simp only []
+  rw [h1]
+  generalize (walkSeen t (t.length + 1) nl.id seen).2 = seen' at hs ⊢
+  have hnext := Linked_next_mem mid nl.id last hs.linked
+  have hpos := Linked_childCount_pos nl.id (mid ++ [last]) hs.linked
+  have hids : ∀ x ∈ mid ++ [last], x ∈ ids t := by
+    intro x hx
+    rcases List.mem_append.mp hx with h' | h'
+    · apply rootPath_sub (i := nl.id)
+      rw [hs.path]; exact List.mem_append_left _ (List.mem_cons_of_mem _ h')
+    · simp at h'; rw [h']; exact hs.hlast
+  have hflat : ((acc ++ [nl.id :: (mid ++ [last])]).flatMap fun s => s.dropLast) =
+      (acc.flatMap fun s => s.dropLast) ++ (nl.id :: mid) := by
+    rw [List.flatMap_append]
+    simp only [List.flatMap_cons, List.flatMap_nil, List.append_nil]
+    rw [show nl.id :: (mid ++ [last]) = nl.id :: mid ++ [last] from rfl, SmallSeg.dropLast_eq]
+  have hlast_nr : (∃ n, find? t last = some n ∧ ¬ n.parent < 0) → last ∈ seen := by
+    rintro ⟨n, hn1, hn2⟩
+    rcases hs.stop with h' | ⟨n', hn1', hn2'⟩
+    · exact h'
+    · rw [hn1] at hn1'; simp only [Option.some.injEq] at hn1'; exact absurd (hn1' ▸ hn2') hn2
+  refine ⟨?_, ?_, ?_, ?_, ?_, ?_, ?_⟩
+  · intro s hs'
+    rcases List.mem_append.mp hs' with h' | h'
+    · exact h.pp s h'
+    · simp only [List.mem_singleton] at h'
+      rw [h']
+      exact ⟨Linked_isParentPath _ (by simp) hs.linked, by simp⟩
+  · rw [hflat, List.nodup_append]
+    refine ⟨h.nodup, hs.nodup hw, ?_⟩
+    intro x hx y hy hxy
+    rw [hxy] at hx
+    rcases (h.mem y).mp hx with h' | ⟨h', _⟩
+    · rcases List.mem_cons.mp hy with e | e
+      · exact hnd (e ▸ h')
+      · have := hpos y (List.mem_append_left _ e)
+        have := h.leaf y h'
+        omega
+    · rcases List.mem_cons.mp hy with e | e
+      · have := (h.inner y h').1
+        rw [e] at this; omega
+      · exact hs.fresh y e h'
+  · intro x
+    rw [hflat, List.mem_append, h.mem x, hs.seen_iff x]
+    constructor
+    · rintro ((h' | ⟨h', hn⟩) | h')
+      · exact Or.inl (List.mem_append_left _ h')
+      · exact Or.inr ⟨Or.inr (Or.inr h'), hn⟩
+      · rcases List.mem_cons.mp h' with e | e
+        · exact Or.inl (List.mem_append_right _ (by simp [e]))
+        · obtain ⟨n, hn1, hn2, _⟩ := hnext x h'
+          exact Or.inr ⟨Or.inl e, n, hn1, hn2⟩
+    · rintro (h' | ⟨h' | h' | h', hn⟩)
+      · rcases List.mem_append.mp h' with e | e
+        · exact Or.inl (Or.inl e)
+        · simp at e; exact Or.inr (by simp [e])
+      · exact Or.inr (List.mem_cons_of_mem _ h')
+      · left; right
+        subst h'
+        exact ⟨hlast_nr hn, hn⟩
+      · exact Or.inl (Or.inr ⟨h', hn⟩)
+  · intro n hn hns hnp
+    rw [hs.seen_iff] at hns ⊢
+    have hfn := find?_of_mem hw.1 hn
+    rcases hns with h' | h' | h'
+    · obtain ⟨n', hn1, _, hn3⟩ := hnext n.id (List.mem_cons_of_mem _ h')
+      rw [hfn] at hn1; simp only [Option.some.injEq] at hn1
+      rw [← hn1] at hn3
+      rcases List.mem_append.mp hn3 with e | e
+      · exact Or.inl e
+      · simp at e; exact Or.inr (Or.inl e)
+    · right; right
+      exact h.closed n hn (h' ▸ hlast_nr ⟨n, h' ▸ hfn, hnp⟩) hnp
+    · right; right
+      exact h.closed n hn h' hnp
+  · intro x hx
+    rcases (hs.seen_iff x).mp hx with h' | h' | h'
+    · exact ⟨hpos x (List.mem_append_left _ h'), hids x (List.mem_append_left _ h')⟩
+    · exact ⟨hpos x (List.mem_append_right _ (by simp [h'])), hids x (List.mem_append_right _ (by simp [h']))⟩
+    · exact h.inner x h'
+  · intro l hl x hx
+    rw [hs.seen_iff]
+    rcases List.mem_append.mp hl with e | e
+    · exact Or.inr (Or.inr (h.anc l e x hx))
+    · simp at e
+      rw [e, hs.path] at hx
+      simp only [List.cons_append, List.tail_cons] at hx
+      rcases List.mem_append.mp hx with h' | h'
+      · exact Or.inl h'
+      · -- an ancestor-or-self of the stop node
+        rcases hs.stop with hst | ⟨n, hn1, hn2⟩
+        · exact Or.inr (Or.inr (closed_rootPath hw seen h.closed last hs.hlast hst x h'))
+        · rw [rootPath_of_root hn1 hn2] at h'
+          simp at h'; exact Or.inr (Or.inl h')
+  · intro l hl
+    rcases List.mem_append.mp hl with e | e
+    · exact h.leaf l e
+    · simp at e; rw [e]; exact hcc
+
+theorem GInv.foldl {t : Table} (hw : WF t) :
+    ∀ (ls done : List Int) (acc : List (List Int)) (seen : List Int), GInv t done acc seen →
+      (∀ l ∈ ls, ∃ n ∈ t, n.id = l ∧ ¬ n.parent < 0 ∧ childCount t n.id = 0) → (done ++ ls).Nodup →
+      GInv t (done ++ ls) (ls.foldl (greedyStep t) (acc, seen)).1 (ls.foldl (greedyStep t) (acc, seen)).2 := by
+  intro ls
+  induction ls with
+  | nil => intro done acc seen h _ _; simpa using h
+  | cons l ls ih =>
+    intro done acc seen h hl hnd
+    obtain ⟨n, hn, rfl, hp, hcc⟩ := hl l List.mem_cons_self
+    have hnot : n.id ∉ done := by
+      intro hm
+      rw [List.nodup_append] at hnd
+      exact hnd.2.2 n.id hm n.id List.mem_cons_self rfl
+    have hstep := h.step hw hn hp hcc hnot
+    have e : done ++ n.id :: ls = (done ++ [n.id]) ++ ls := by simp
+    rw [List.foldl_cons, e]
+    exact ih (done ++ [n.id]) _ _ hstep (fun l' hl' => hl l' (List.mem_cons_of_mem _ hl')) (e ▸ hnd)
+
+/-! ### greedy segments: the edge partition -/
+
+theorem mem_leafIds {t : Table} {x : Int} :
+    x ∈ leafIds t ↔ ∃ n ∈ t, n.id = x ∧ ¬ n.parent < 0 ∧ childCount t n.id = 0 := by
+  unfold leafIds
+  simp only [List.mem_map, List.mem_filter, isRootNode, Bool.and_eq_true, Bool.not_eq_true', decide_eq_false_iff_not,
+    beq_iff_eq]
+  constructor
+  · rintro ⟨n, ⟨h1, h2, h3⟩, h4⟩; exact ⟨n, h1, h4, h2, h3⟩
+  · rintro ⟨n, h1, h4, h2, h3⟩; exact ⟨n, ⟨h1, h2, h3⟩, h4⟩
+
+theorem leafIds_nodup {t : Table} (hnd : (ids t).Nodup) : (leafIds t).Nodup :=
+  hnd.sublist (List.filter_sublist.map _)
+
+/-- Below every non-root node there is a non-root leaf. -/
+theorem exists_leaf_below {t : Table} (hw : WF t) :
+    ∀ (k : Nat) (x : Node), x ∈ t → ¬ x.parent < 0 → t.length < (rootPath t x.id).length + k →
+      ∃ l ∈ t, ¬ l.parent < 0 ∧ childCount t l.id = 0 ∧ x.id ∈ rootPath t l.id := by
+  intro k
+  induction k with
+  | zero =>
+    intro x _ _ hk
+    have := rootPath_length_le hw x.id
+    omega
+  | succ k ih =>
+    intro x hx hp hk
+    by_cases hcc : childCount t x.id = 0
+    · exact ⟨x, hx, hp, hcc, rootPath_head_mem (mem_ids_of_mem hx)⟩
+    · obtain ⟨c, hc, hcp⟩ := exists_child_of_pos (t := t) (i := x.id) (by omega)
+      have hcnr : ¬ c.parent < 0 := by rw [hcp]; have := hw.2.1 x hx; omega
+      have e := rootPath_of_nonroot hw (find?_of_mem hw.1 hc) hcnr
+      have hk' : t.length < (rootPath t c.id).length + k := by
+        rw [e, hcp]; simp only [List.length_cons]; omega
+      obtain ⟨l, hl, hlp, hlcc, hmem⟩ := ih c hc hcnr hk'
+      refine ⟨l, hl, hlp, hlcc, ?_⟩
+      have hsuf := rootPath_suffix hw l.id (mem_ids_of_mem hl) c.id hmem
+      apply hsuf.subset
+      rw [e, hcp]
+      exact List.mem_cons_of_mem _ (rootPath_head_mem (mem_ids_of_mem hx))
+
+theorem greedySeqs_spec {t : Table} (hw : WF t) (len : Int → Int → Nat) :
+    (∀ s ∈ greedySeqs t (sortedLeafs t len), isParentPath t s = true ∧ s.length > 1) ∧
+    ((greedySeqs t (sortedLeafs t len)).flatMap fun s => s.dropLast).Perm
+      ((t.filter fun n => !isRootNode n).map (·.id)) := by
+  have hperm : (sortedLeafs t len).Perm (leafIds t) := sortBy_perm _ _
+  have hnd : ([] ++ sortedLeafs t len).Nodup := by
+    rw [List.nil_append]; exact hperm.nodup_iff.mpr (leafIds_nodup hw.1)
+  have hleaf : ∀ l ∈ sortedLeafs t len, ∃ n ∈ t, n.id = l ∧ ¬ n.parent < 0 ∧ childCount t n.id = 0 :=
+    fun l hl => mem_leafIds.mp (hperm.mem_iff.mp hl)
+  have hinv := GInv.foldl hw (sortedLeafs t len) [] [] [] (GInv.init t) hleaf hnd
+  rw [List.nil_append] at hinv
+  refine ⟨hinv.pp, ?_⟩
+  apply (List.perm_ext_iff_of_nodup hinv.nodup (nonroot_ids_nodup hw.1)).mpr
+  intro x
+  show x ∈ (((sortedLeafs t len).foldl (greedyStep t) ([], [])).1.flatMap fun s => s.dropLast) ↔ _
+  rw [hinv.mem x, mem_nonroot_ids]
+  constructor
+  · rintro (h | ⟨_, n, hn1, hn2⟩)
+    · obtain ⟨n, hn, h1, h2, _⟩ := hleaf x h
+      exact ⟨n, hn, h2, h1⟩
+    · exact ⟨n, (find?_some hn1).1, hn2, (find?_some hn1).2⟩
+  · rintro ⟨nx, hnx, hp, rfl⟩
+    by_cases hcc : childCount t nx.id = 0
+    · left
+      exact hperm.mem_iff.mpr (mem_leafIds.mpr ⟨nx, hnx, rfl, hp, hcc⟩)
+    · right
+      refine ⟨?_, nx, find?_of_mem hw.1 hnx, hp⟩
+      obtain ⟨l, hl, hlp, hlcc, hmem⟩ := exists_leaf_below hw (t.length + 1) nx hnx hp (by omega)
+      have hl' : l.id ∈ sortedLeafs t len := hperm.mem_iff.mpr (mem_leafIds.mpr ⟨l, hl, rfl, hlp, hlcc⟩)
+      apply hinv.anc l.id hl'
+      obtain ⟨rest, hr⟩ := rootPath_cons (mem_ids_of_mem hl)
+      rw [hr] at hmem ⊢
+      rcases List.mem_cons.mp hmem with e | e
+      · rw [e] at hcc; exact absurd hlcc hcc
+      · exact e
+
+/-- **`segments` is correct**: child→parent paths that partition the edges, longest first, isolated
+nodes last. -/
+theorem segments_ok {t : Table} (hw : WF t) (len : Int → Int → Nat) : segmentsOKB t len (segments t len) = true := by
+  obtain ⟨hpp, hperm⟩ := greedySeqs_spec hw len
+  have hfil : ((greedySeqs t (sortedLeafs t len)).filter fun s => s.length > 1) = greedySeqs t (sortedLeafs t len) := by
+    rw [List.filter_eq_self]
+    intro s hs; simpa using (hpp s hs).2
+  unfold segmentsOKB
+  simp only [Bool.and_eq_true, List.all_eq_true, beq_iff_eq]
+  refine ⟨⟨⟨?_, ?_⟩, segments_nonIncreasing t len⟩, ?_⟩
+  · intro s hs
+    rw [segments_eq, List.mem_append] at hs
+    rcases hs with h | h
+    · rw [mem_sortBy, hfil] at h
+      exact (hpp s h).1
+    · obtain ⟨i, _, rfl⟩ := List.mem_map.mp h
+      rfl
+  · apply coversEdgesOnce_of_perm
+    rw [segments_filter_long, hfil]
+    exact ((sortBy_perm _ _).flatMap_right _).trans hperm
+  · rw [segments_single_eq_isolated]; rfl
+
 end Navis.Forest
